@@ -191,6 +191,11 @@ func ruleC06Extra(prog *Program, rep *Report) {
 	ruleRecoverFrames(prog, rep, []string{"oj", "sen", "gen", "jp", "asm", "alt", "pretty"}, "E-recover")
 	ruleUncheckedAssert(prog, rep)
 	ruleSiblingGuard(prog, rep, []string{"jp"})
+	// plan construction runs outside Execute's recover frame; the path and script parser indexes its input
+	build := reachableFuncs(prog, "asm", "NewPlan")
+	ruleConstIdx(prog, rep, 20, func(rel, fn string) bool {
+		return (rel == "asm" && build[fn]) || (rel == "jp" && strings.HasPrefix(fn, "parser."))
+	}, "asm", "jp")
 }
 
 // ruleUncheckedAssert: the table-driven front-ends own no recover frame (the
